@@ -330,7 +330,7 @@ def parse_idx_tuples(s):
     return out
 
 
-PUB_STD = {"quick": ["-families", "inbox,outbox,get", "-n", "6", "-faults", "single", "-maxruns", "3000", "-shards", "8"],
+PUB_STD = {"quick": ["-families", "inbox,outbox,get", "-n", "6", "-faults", "single", "-maxruns", "4500", "-shards", "8"],
            "thorough": ["-families", "inbox,outbox,get", "-n", "40", "-faults", "single", "-maxruns", "30000", "-shards", "14"]}
 
 
@@ -512,6 +512,9 @@ def c20_concurrent(ctx):
 SHAPE = {"quick": ["-families", "shape", "-n", "1", "-faults", "none", "-maxruns", "40000", "-shards", "8"],
          "thorough": ["-families", "shape", "-n", "4", "-faults", "none", "-maxruns", "40000", "-shards", "14"]}
 SHAPE_RULE = "; structural variants: each of actor / object / target / to / cc / bto / bcc / audience / id / type / inReplyTo / attributedTo of a valid request of every inbox and outbox type made absent, empty, doubled, a plain string, an embedded value without id"
+AGAIN = {"quick": ["-families", "again", "-n", "16", "-faults", "none", "-shards", "2"], "thorough": ["-families", "again", "-n", "160", "-faults", "single", "-shards", "8"]}
+FOCUS_FAULTS = {"quick": ["-families", "fedfocus", "-n", "2", "-faults", "single", "-maxruns", "4000", "-shards", "8"],
+                "thorough": ["-families", "fedfocus", "-n", "20", "-faults", "single", "-maxruns", "40000", "-shards", "14"]}
 GATE = {"quick": ["-families", "gate", "-gate", "600"], "thorough": ["-families", "gate", "-gate", "0", "-maxruns", "40000"]}
 
 
@@ -523,7 +526,7 @@ def check_C07(ctx):
                          "modelled, not verified: http.Header.Set is not an observable call; header strings are compared byte for byte; the handler takes no authentication (documented)"],
                         {"monitors": ["gate_bad"], "classify": classify,
                          "rule": "C07 product {entry} x {protocols} x {auth} x {block} x {method} x {12 header variants} x {4 bodies}: covering sample in the quick tier, complete in the thorough tier; plus all std scenarios with single faults"},
-                        run_specs=[("gate", GATE[ctx.tier]), ("shape", SHAPE[ctx.tier]), ("std", PUB_STD[ctx.tier])])
+                        run_specs=[("gate", GATE[ctx.tier]), ("shape", SHAPE[ctx.tier]), ("again", AGAIN[ctx.tier]), ("std", PUB_STD[ctx.tier])])
 
 
 def replay_C07(ctx):
@@ -538,7 +541,7 @@ def check_C10(ctx):
                          "modelled, not verified: faults of the ResponseWriter itself are outside the quantifier; header writes are observed when the status is written"],
                         {"monitors": ["outcome_bad"], "classify": classify,
                          "rule": "C07 request product plus every standard scenario with every single fault; judged by the strict outcome monitor (201 => Location = first generated id)"},
-                        run_specs=[("gate", GATE[ctx.tier]), ("shape", SHAPE[ctx.tier]), ("std", PUB_STD[ctx.tier])])
+                        run_specs=[("gate", GATE[ctx.tier]), ("shape", SHAPE[ctx.tier]), ("again", AGAIN[ctx.tier]), ("std", PUB_STD[ctx.tier])])
 
 
 def replay_C10(ctx):
@@ -556,7 +559,7 @@ def check_C09(ctx):
                          "modelled, not verified: Go's defer (per-iteration closures as bracket, function-level defers of InboxForwarding as a pending list released in reverse order at return); Unlock's own error is ignored as in the code"],
                         {"monitors": ["lock_bad"], "classify": classify,
                          "rule": "every standard scenario fault-free and with every single fallible call failing (thorough: more scenarios); judged by the strict lock monitor" + SHAPE_RULE},
-                        run_specs=[("shape", SHAPE[ctx.tier]), ("std", PUB_STD[ctx.tier])])
+                        run_specs=[("shape", SHAPE[ctx.tier]), ("focusfaults", FOCUS_FAULTS[ctx.tier]), ("std", PUB_STD[ctx.tier])])
 
 
 def replay_C09(ctx):
